@@ -74,3 +74,30 @@ Proof.
     rewrite L. cbn [negb]. now apply list_eqb_spec.
   - inversion H; subst. rewrite Nat.eqb_refl. cbn [negb]. now apply list_eqb_spec.
 Qed.
+
+(* ---- Kommazahlen Listen (f7e8a0b): not memcmp but a loop over the elements that returns false at the first pair
+   with `fcmp une` (unordered or not equal), true after the loop.  Elements are binary64 bit patterns. *)
+Definition fcmp_une (x y : Z) : bool := negb (f_eq x y).
+
+Fixpoint komma_loop (a b : list Z) : bool :=
+  match a, b with
+  | x :: a', y :: b' => if fcmp_une x y then false else komma_loop a' b'
+  | _, _ => true
+  end.
+
+Definition lower_list_eq_komma (a b : list Z) : bool :=
+  if negb (Nat.eqb (length a) (length b)) then false else komma_loop a b.
+
+(* the emitted code computes exactly RefSem's `gleich` on Kommazahlen Listen (element-wise IEEE equality:
+   0,0 equals -0,0, NaN equals nothing), for all lists *)
+Theorem list_eq_komma_lowering_correct : forall a b,
+  value_eqb (VL TKomma (map VK a)) (VL TKomma (map VK b)) = Some (lower_list_eq_komma a b).
+Proof.
+  unfold lower_list_eq_komma.
+  induction a as [|x a IH]; destruct b as [|y b]; try reflexivity.
+  specialize (IH b). cbn [value_eqb ty_eqb map] in IH |- *.
+  cbn [length Nat.eqb komma_loop]. unfold fcmp_une.
+  destruct (f_eq x y); cbn [negb].
+  - exact IH.
+  - rewrite IH. destruct (negb (Nat.eqb (length a) (length b))); reflexivity.
+Qed.
